@@ -157,7 +157,7 @@ class C13(Prop):
                    "an exact identifier under the EDIF policy may match case-insensitively (fast lookup) or "
                    "case-sensitively (name-map branches): both are accepted",
                    "the empty pattern is not generated"]
-    runs = {"quick": 2000, "thorough": 50000}
+    runs = {"quick": 2500, "thorough": 60000}
 
     def configure(self, rng, tier):
         cfg = hier_config(rng)
@@ -166,6 +166,7 @@ class C13(Prop):
         cfg["name_style"] = "pool"
         cfg["name_pool"] = NAME_POOL
         cfg["unique_names"] = False
+        cfg["unique_idents"] = False
         cfg["ident_rate"] = rng.choice([0.0, 0.4, 0.8])
         cfg["userkey_rate"] = rng.choice([0.0, 0.4])
         cfg["unnamed"] = rng.choice([0.0, 0.15])
